@@ -2,7 +2,8 @@
 # Regression of the checks against the seeded changes: every seeded/<id>/patch.diff must make
 # the quick check of property <id> report a violation (the repository is restored afterwards).
 cd /verif
-trap 'git -C /repo checkout -- .' EXIT INT TERM
+trap 'git -C /repo checkout -- .' EXIT
+trap 'git -C /repo checkout -- .; exit 130' INT TERM
 pat=${1:-C*}   # optional glob, e.g. ./seed_all.sh 'C*-r2'
 for d in seeded/$pat/; do
   name=$(basename $d); id=${name%%-*}
